@@ -778,7 +778,8 @@ fn oracle(cx: &OracleCtx, req: &Req, res: &Result<Vec<u8>, String>, st: &mut Sta
     if chain && notdef_composite_emptied {
         st.count("oracle.chain_skipped_notdef_composite");
     }
-    if chain && !notdef_composite_emptied {
+    // malformed synthetic fonts (dangling components, short hmtx) are not expected to be stable
+    if chain && !notdef_composite_emptied && !cx.name.starts_with("syn-bad") {
         let req2 = Req { gids: req.gids.iter().filter(|g| spec.contains(g)).map(|g| newid(*g)).collect(), unis: req.unis.clone(), flags: req.flags, label: "again" };
         let res2 = run_subset(sub, &req2);
         st.count("oracle.subset_of_subset");
